@@ -66,15 +66,21 @@ package zenodb
 //@   at call Sequence).Merge assert merges_with_the_out_fields_expression: callarg2 == outFields[o].Expr && callarg0 == out[o] && callarg1 == seq
 
 // C02: on open, the resume offsets are the per-source maximum (Advance) of the newest readable filestore's header
-// offsets and the offset file's offsets - never the offset file alone when a filestore was selected.
+// offsets and the offset file's offsets - never the offset file alone when a filestore was selected. C15/C02: the
+// offsets read from the offset file are the ones carried on: Advance is applied over them, and they are the result when
+// no filestore is selected (they cover points that left no data, e.g. points the WHERE rejected).
 //@ func (*table).openRowStore
 //@   modifies *
 //@   capture walOffs Int = result 0 of call readWALOffsets
 //@   capture walErr Iface = result 2 of call readWALOffsets
 //@   capture adv Int = result 0 of call OffsetsBySource).Advance
+//@   capture fileOffs Int = result 0 of call (*zenodb.table).readOffsets
+//@   at call OffsetsBySource).Advance assert advance_over_the_offset_files_offsets: captured(fileOffs) ==> callarg1 == fileOffs
+//@   ensures offset_file_used_when_no_filestore: result2 == nil && !captured(adv) && captured(fileOffs) ==> result1 == fileOffs
 //@   at call OffsetsBySource).Advance assert advance_from_file_header: callarg0 == walOffs && walErr == nil
 //@   ensures filestore_offsets_win: result2 == nil && existingFileName != "" && walErr == nil ==> result1 == adv
 //@   loop 1 invariant no_file_yet: existingFileName == "" || walErr != nil
+//@   loop 1 invariant offset_file_kept: captured(fileOffs) ==> offsetsBySource == fileOffs
 
 // C17: the shared scan feeds every coalesced iteration that is still running exactly once per row, whatever the other
 // iterations do: one that stops early (LIMIT) is removed and never fed again, and its removal does not make any other
